@@ -29,7 +29,7 @@ def enc_ops_for_path(rng, path, mbs, w, data):
             if k == 1 and r < 0.5:
                 ops.append(f"block {hx(seg)}" if r < 0.25 else f"blockb {hx(seg)} {hx(rb_nz(rng, mbs))}")
             else:
-                ops.append(f"blocks {hx(seg)}" if r < 0.75 else f"blocksb {hx(seg)} {hx(rb_nz(rng, len(seg)))}")
+                ops.append(blocks_op(rng, seg) if r < 0.75 else f"blocksb {hx(seg)} {hx(rb_nz(rng, len(seg)))}")
     elif path == "oneshot":
         ops.append(f"oneshot {hx(data)}")
     elif path == "oneshotb":
@@ -203,6 +203,12 @@ def run_C07(ctx):
                     i += k
                 for ww in ([2, 3] if not ctx.thorough else [2, 3, 8]):
                     g.append(Case("block", mode, bs, ww, key, iv, ops=ops + ["ivstate"], role="exh"))
+                # the same composition with every piece through a caller-written `*_with_backend` closure
+                i2, ops2 = 0, []
+                for k in comp:
+                    ops2.append(f"backend {rng.randrange(0, 4)} {hx(data[i2*bs:(i2+k)*bs])}")
+                    i2 += k
+                g.append(Case("block", mode, bs, rng.choice([2, 3]), key, iv, ops=ops2 + ["ivstate"], role="exh-backend"))
             groups.append(g)
             allc += g
     # keystream cores: applyblocks / ksblocks under any partition and width
@@ -219,7 +225,7 @@ def run_C07(ctx):
             for (_, ww) in width_variants(bs, w):
                 ops, i = [], 0
                 for k in random_composition(rng, n, zero_p=0.1, bias=[1, ww, ww + 1]):
-                    ops.append(f"applyblocks {hx(data[i*bs:(i+k)*bs])}")
+                    ops.append(coreapply_op(rng, data[i*bs:(i+k)*bs], bs))
                     i += k
                 g.append(Case("core", mode, bs, ww, key, iv, ops=ops + ["ivstate"], role="parts"))
             groups.append(g)
@@ -370,7 +376,7 @@ def run_C09(ctx):
             cuts = range(0, n + 1) if n <= 8 or ctx.thorough else sorted(set([0, 1, n - 1, n] + [rng.randrange(0, n + 1) for _ in range(3)]))
             for k in cuts:
                 g.append(Case("block", mode, bs, w, key, iv,
-                              ops=[f"blocks {hx(data[:k*mbs])}", "ivstate", "reinit", f"blocks {hx(data[k*mbs:])}", "ivstate"], role="cut"))
+                              ops=[blocks_op(rng, data[:k*mbs]), "ivstate", "reinit", f"blocks {hx(data[k*mbs:])}", "ivstate"], role="cut"))
             groups.append(g)
             allc += g
             abs_cases += g
@@ -384,7 +390,7 @@ def run_C09(ctx):
             g = [Case("core", mode, bs, w, key, iv, ops=[f"applyblocks {hx(data)}", "ivstate"], role="whole", cls_iv=cls)]
             for k in range(0, n + 1):
                 g.append(Case("core", mode, bs, w, key, iv,
-                              ops=[f"applyblocks {hx(data[:k*bs])}", "ivstate", "reinit", f"applyblocks {hx(data[k*bs:])}", "ivstate"], role="cut"))
+                              ops=[coreapply_op(rng, data[:k*bs], bs), "ivstate", "reinit", f"applyblocks {hx(data[k*bs:])}", "ivstate"], role="cut"))
             groups.append(g)
             allc += g
             abs_cases += g
@@ -833,7 +839,7 @@ def history_ops(rng, family, mode, bs, w, k):
             if r < 0.4:
                 ops.append(f"block {hx(rb(rng, mbs))}")
             elif r < 0.85:
-                ops.append(f"blocks {hx(rb(rng, nblocks_choice(rng, w, 2 * w + 1) * mbs))}")
+                ops.append(blocks_op(rng, rb(rng, nblocks_choice(rng, w, 2 * w + 1) * mbs)))
             else:
                 ops.append("ivstate")
         elif family == "buf":
@@ -851,7 +857,7 @@ def history_ops(rng, family, mode, bs, w, k):
         elif family == "core":
             r = rng.random()
             if r < 0.6:
-                ops.append(f"applyblocks {hx(rb(rng, nblocks_choice(rng, w, 2 * w + 1) * bs))}")
+                ops.append(coreapply_op(rng, rb(rng, nblocks_choice(rng, w, 2 * w + 1) * bs), bs))
             elif r < 0.8:
                 ops.append("ksblock")
             elif mode != "ofb":
